@@ -68,5 +68,15 @@ impl FungibleAllowList for ExampleContract {
 #[contractimpl(contracttrait)]
 impl AccessControl for ExampleContract {}
 
+// The default `FungibleBurnable` methods call `Base::burn*` and would skip the
+// allowlist check; route them through the `AllowList` overrides instead.
 #[contractimpl(contracttrait)]
-impl FungibleBurnable for ExampleContract {}
+impl FungibleBurnable for ExampleContract {
+    fn burn(e: &Env, from: Address, amount: i128) {
+        AllowList::burn(e, &from, amount);
+    }
+
+    fn burn_from(e: &Env, spender: Address, from: Address, amount: i128) {
+        AllowList::burn_from(e, &spender, &from, amount);
+    }
+}
